@@ -146,7 +146,19 @@ func Judge(s *Sim) []Violation {
 		j.add(prop, "harness", "", "%s", p)
 	}
 	claims := map[string][]string{} // task|counter -> successful claim request ids
-	for _, tx := range s.Txs {
+	for i, tx := range s.Txs {
+		// continuity: the state a transaction starts from is the state its predecessor committed; anything else
+		// means that an acknowledged store transaction never reached the database (or the database changed outside one)
+		if i > 0 && fmt.Sprintf("%p", tx.Pre["promises"]) != fmt.Sprintf("%p", s.Txs[i-1].Post["promises"]) {
+			if d := core.Diff(s.Txs[i-1].Post, tx.Pre); len(d) > 0 {
+				j.add("C06", "D1", "", "store transactions reported successful are not in the database: between tx#%d and tx#%d the committed state changed without a transaction:\n%s", s.Txs[i-1].Seq, tx.Seq, core.ChangesString(d))
+				for _, c := range d {
+					if c.Table == "promises" && c.Before != nil && (c.After == nil || (c.Before.I("state") != pPending && c.After.I("state") != c.Before.I("state"))) {
+						j.add("C01", "I3", "", "promise %s: an acknowledged state (%s) was lost from the database: now %s", c.Key, core.RowString(c.Before), core.RowString(c.After))
+					}
+				}
+			}
+		}
 		j.judgeTx(tx, claims)
 	}
 	for k, ids := range claims {
